@@ -13,7 +13,7 @@ pub struct VErr;
 // a value: a bool, a pointer to a list element / field / map entry, or anything else
 #[verifier::external_body] pub struct HeapP { x: usize }
 #[verifier::external_body] pub struct OtherP { x: usize }
-pub enum Primitive { Bool(bool), HeapPrimitive(HeapP), Other(OtherP) }
+pub enum Primitive { Bool(bool), HeapPrimitive(HeapP), Optional(Option<Box<Primitive>>), Other(OtherP) }
 pub uninterp spec fn pointee(h: HeapP) -> Primitive;           // what the pointer denotes at this moment
 pub open spec fn deref(p: Primitive) -> Primitive { match p { Primitive::HeapPrimitive(h) => pointee(h), _ => p } }
 impl Primitive {
@@ -204,6 +204,21 @@ pub fn {arm}_head(v: &ListNow) -> (r: Option<usize>)
         obls.append(Obl(f"C07.bridge.{arm}.new", ["C07"], fn=f"{op}::new", desc=f"{op}::new keeps the callback's location and captured variables"))
         obls.append(Obl(f"C17.bridge.{arm}.visit", ["C17", "C13", "C07"], fn=f"{op}::wait_for", desc=f"{op}::wait_for: never indexes past the end of the list as it is at that moment (failure instead of a Rust panic)"))
         obls.append(Obl(f"C13.bridge.{arm}.empty", ["C13", "C17"], fn=f"BuiltInFunction::run[{arm}]", desc=f"{arm}: an empty receiver returns an empty list without starting the callback bridge (the bridge protocol calls wait_for before it tests for the end)"))
+    fget = src.fn(FUNC, "get", "impl ReturnValue")
+    bget = translate(fget["body"], [], log, "ReturnValue::get")
+    check_closed(bget, "ReturnValue::get")
+    fns.append("""
+impl ReturnValue {
+    //@ OBL C13.return_value.get
+    // the value a call produced, if it produced one -- whatever that value is (a nil is a value)
+    pub fn get(self) -> (r: Option<Primitive>)
+        ensures self is Value ==> r == Some(self->Value_0), !(self is Value) ==> r is None
+    {
+""" + render(bget, 2) + """
+    }
+}
+""")
+    obls.append(Obl("C13.return_value.get", ["C13", "C01"], fn="ReturnValue::get", desc="ReturnValue::get: Some(v) exactly for Value(v), for every v"))
     gen = header(log, f"{FUNC}: BuiltInFunction::run arms VecMap / VecFilter (head), MapOp::wait_for, FilterOp::wait_for") + SPEC + \
         "pub open spec fn keeps(rv: ReturnValue) -> bool { rv is Value && deref(rv->Value_0) == Primitive::Bool(true) }\n" + "impl Primitive { pub fn verif_clone(&self) -> (r: Primitive) ensures r == *self { clone_prim(self) } }\n" + "\n".join(fns) + "\n} // verus!\nfn main() {}\n"
     return gen, obls, log
